@@ -25,7 +25,8 @@ DT = torch.float64
 
 
 def lattice(tier):
-    base = [{}, {"max_cholesky_size": 0}, {"fast_root": False}, {"ciq_samples": True, "minres_tolerance": 1e-12}]
+    base = [{}, {"max_cholesky_size": 0}, {"fast_root": False}, {"ciq_samples": True, "minres_tolerance": 1e-12},
+            {"max_cholesky_size": 3}, {"max_cholesky_size": 5}]  # between component size (2, 3) and operator size (6, 9)
     if tier == "thorough":
         base += [{"max_cholesky_size": 0, "fast_root": False}, {"ciq_samples": True, "minres_tolerance": 1e-12, "max_cholesky_size": 0}]
     return base
@@ -102,7 +103,7 @@ def run(case):
     nb = max(1, int(torch.Size(opb).numel()))
     heads = R.heads_of(case["term"])
     feat = {"name": name, "head": case["term"][0], "nb": len(opb), "k": k, "cfg": ",".join(f"{a}={b}" for a, b in sorted(cfgs.items())),
-            "cg_forced": cfgs.get("max_cholesky_size") == 0, "ciq": bool(cfgs.get("ciq_samples")), "br": "BatchRepeat" in heads}
+            "cg_forced": cfgs.get("max_cholesky_size") is not None and cfgs["max_cholesky_size"] < n, "ciq": bool(cfgs.get("ciq_samples")), "br": "BatchRepeat" in heads}
     ev = torch.linalg.eigvalsh(A)
     distinct = bool(((ev[..., 1:] - ev[..., :-1]) > 1e-3 * ev[..., -1:]).all()) if n > 1 else True
     feat["distinct"] = distinct
